@@ -586,7 +586,7 @@ func c13(c *Ctx) {
 		mu.Unlock()
 		if j.bc.TS && j.si == 0 {
 			for _, tp := range []string{"ts-client", "ts-server"} {
-				res := c.TB.Run(tp, req, plugin.RunOpt{})
+				res := lab.RunDecoy(c.TB, tp, req, plugin.RunOpt{})
 				c.R.Eval(1)
 				if !res.OK() {
 					continue // acceptance is C12's matter
